@@ -379,13 +379,12 @@ func fileReadAux(L *LState, file *lFile, idx int) int {
 				switch opt {
 				case 'n':
 					var v LNumber
-					_, err = fmt.Fscanf(file.reader, LNumberScanFormat, &v)
-					if err == io.EOF {
+					// blanks before the numeral are skipped, line ends included (as fscanf does); where no
+					// number can be read the result is nil and nothing further is read
+					if _, err = fmt.Fscan(file.reader, &v); err != nil {
+						err = nil
 						L.Push(LNil)
 						goto normalreturn
-					}
-					if err != nil {
-						goto errreturn
 					}
 					L.Push(v)
 				case 'a':
